@@ -4,6 +4,7 @@ import (
 	"fmt"
 	"math/rand/v2"
 	"os"
+	"runtime"
 	"sort"
 	"strings"
 	"sync"
@@ -424,6 +425,21 @@ func (c09) RunCase(c fw.Case, env *fw.Env) *fw.CaseResult {
 	}
 
 	// ---- concurrent phase
+	// A writer's cache transaction outlives its storage transaction (the cache commit comes after
+	// the storage commit returned). Seeded pauses right after the storage commit let the next
+	// batch, or a search, get in between the two.
+	var commitPauses atomic.Uint64
+	px.AfterCommit = func() {
+		n := commitPauses.Add(1)
+		switch fw.SplitMix(c.Seed^n) % 6 {
+		case 0:
+			runtime.Gosched()
+		case 1:
+			time.Sleep(300 * time.Microsecond)
+		case 2:
+			time.Sleep(2 * time.Millisecond)
+		}
+	}
 	var liveMu sync.Mutex
 	liveIds := m.SortedIds()
 	live := func(rng *rand.Rand) []uuid.UUID {
